@@ -1,23 +1,29 @@
 use crate::engine::Ctx;
 use crate::report::Tier;
 
+pub mod c11;
 pub mod c14;
 pub mod c15;
+pub mod c20;
 
 pub type BoxedScenario = Box<dyn Fn(&mut Ctx) + Sync>;
 
 pub fn run(prop: &str, tier: Tier, seed: u64) -> Option<i32> {
     Some(match prop {
+        "C11" => c11::run(tier, seed),
         "C14" => c14::run(tier, seed),
         "C15" => c15::run(tier, seed),
+        "C20" => c20::run(tier, seed),
         _ => return None,
     })
 }
 
 pub fn scenario(prop: &str, name: &str, tier: Tier) -> Option<BoxedScenario> {
     match prop {
+        "C11" => c11::scenario(name, tier),
         "C14" => c14::scenario(name, tier),
         "C15" => c15::scenario(name, tier),
+        "C20" => c20::scenario(name, tier),
         _ => None,
     }
 }
